@@ -258,6 +258,11 @@ def install():
 def _array(rng, nfields=None, names=None):
     shape = [(), (int(rng.integers(1, 6)),), (int(rng.integers(1, 40)),), (int(rng.integers(1, 5)), int(rng.integers(1, 4)))][
         int(rng.choice(4, p=[.1, .3, .35, .25]))]
+    if nfields is None and names is None and rng.random() < .12:
+        # a wide table (17-60 fields, as survey catalogues have): library sorts and searches behave differently
+        # above small sizes
+        nfields = int(rng.integers(17, 61))
+        names = list(gen.NAMES) + ["col%02d" % i for i in range(40)]
     return gen.rand_table(rng, shape, nfields=nfields, kinds=KINDS, names=names, maxsub=2)
 
 
@@ -354,7 +359,7 @@ def run_case(case):
             probe.attempt(nu.remove_fields, arr, list(names))
             probe.attempt(nu.remove_fields, arr, [bogus])
     elif fam == "add":
-        pool = [n for n in gen.NAMES if n not in names]
+        pool = [n for n in list(gen.NAMES) + ["new%02d" % q for q in range(6)] if n not in names]
         k = int(rng.integers(1, 4))
         descr = [gen.field_descr(rng, pool[i], KINDS, maxsub=2) for i in range(k)]
         add = descr if rng.random() < .6 else np.dtype(descr)
@@ -408,7 +413,7 @@ def run_case(case):
         k = int(rng.integers(1, len(names) + 1))
         common = [names[i] for i in rng.permutation(len(names))[:k]]
         descr = [d for d in arr.dtype.descr if d[0] in common]
-        extra = [n for n in gen.NAMES if n not in names][:2]
+        extra = [n for n in list(gen.NAMES) + ["new%02d" % q for q in range(6)] if n not in names][:2]
         descr = [(extra[0], "<i4")] + descr + [(extra[1], "S3")]
         dst = np.zeros(arr.shape, dtype=descr)
         gen.fill(rng, dst)
